@@ -273,7 +273,13 @@ def gen_exhaustive(tier, seed):
 
 
 def suites(tier, seed):
+    tail = (amqp.heartbeat() + amqp.connection_close(320, "bye")).hex()
     return [
+        Suite("bytes-behind-open-ok-e2e", "hbe2e", lambda: [Case("t%d" % k, ["run 0 0 silent 900 tail=%s,%d" % (tail, k)], {"keep_prefix": 0}) for k in ([0, 1, 3, 7] if tier == "quick" else [0, 1, 2, 3, 4, 5, 6, 7])],
+              monitor=lambda c, il, sl: None if any(l.startswith("close err ServerClosedConnection 320") for l in il) else (
+                  "the server sent a heartbeat and Connection.Close(320) right behind OpenOk, the first %s bytes in the same write as OpenOk: the client must end with ServerClosedConnection 320, got %s" % (c.ops[0].split(",")[-1], [l for l in il if l.startswith(("open", "close", "death"))]), "c06-handshake-boundary"),
+              nontrivial=lambda c, il: True, compare=False, shards=8, timeout=120,
+              rule="end to end: the bytes of the frames that follow OpenOk arrive partly in the same read as OpenOk (0-7 bytes of a heartbeat frame), the rest 300 ms later: the decoder state survives the switch from handshake to steady state - the frames the client acts on depend only on the bytes"),
         Suite("framebuf-large", "framebuf", lambda: gen_large(tier, seed), monitor=monitor, nontrivial=nontrivial, shrink=False, shards=4,
               rule="one body frame of 4080 ... 200000 bytes (thorough: up to 3 MB) between small frames, everything readable at once or cut just after the header / just before the last byte / at random: every frame handed on once, in order, as soon as its last byte has arrived"),
         Suite("framebuf-random", "framebuf", lambda: gen_random(tier, seed), monitor=monitor, nontrivial=nontrivial,
